@@ -90,6 +90,20 @@ def run(tier, seed, rep, only=None):
     )
 
 
+def not_claimed(sig):
+    """clauses of the re-used harnesses that C20's statement does not extend to rf24_lite"""
+    body = sig.split("/", 1)[1]
+    if body.startswith("tx:"):
+        # of C08 only 'restores the pipe-0 reading address on entering RX mode' is claimed (a freshly
+        # constructed lite object is documented to need `listen = False` before transmitting)
+        return "C08's TX clause is not part of C20"
+    if body.startswith("exception:") and body.endswith(":invalid"):
+        return "documented reduction: exceptions for invalid arguments were removed from the lite driver"
+    if body.startswith("illegal-write:") and body.endswith(":len6"):
+        return "addresses longer than 5 bytes are outside the documented domain and the lite driver does not validate them"
+    return None
+
+
 def _optional_parts(tier, seed, rep, only, bounds):
     """C02 / C03 / C08 / C10 harnesses re-run on the lite driver (each module exports a
     class-parameterised entry point)"""
@@ -110,6 +124,16 @@ def _optional_parts(tier, seed, rep, only, bounds):
         else:
             bounds[modname] = f(tier, seed, rep, cls_name="lite", pid=PID)
         extra += "; " + label + " (" + modname + ") on rf24_lite"
+    # C20 claims of the lite driver what its statement lists, within the documented reductions
+    # ("exception prompts have been reduced", no per-pipe state, no validation of oversize input):
+    dropped = {}
+    for sig in list(rep.violations):
+        why = not_claimed(sig)
+        if why:
+            dropped[sig] = why
+            del rep.violations[sig]
+    if dropped:
+        rep.part("not-claimed-for-lite", **{k.replace("/", "_"): v for k, v in dropped.items()})
     return extra
 
 
